@@ -130,6 +130,12 @@ Theorem C17_dot_exclusion_nodes : forall u isroot tn s, NoDup (ids_t s) ->
 Proof. exact dot_nodes_exclusion. Qed.
 Print Assumptions C17_dot_exclusion_nodes.
 
+Theorem C17_dot_edge_counts : forall u s, NoDup (ids_t s) ->
+  length (dot_edges u true s) = length (pre_f (rch s)) /\
+  length (dot_edges u true s) = length (rch s) + length (dot_edges u false s).
+Proof. exact dot_edges_counts. Qed.
+Print Assumptions C17_dot_edge_counts.
+
 (* both ends of every edge are defined *)
 Theorem C17_dot_edges_between_defined_nodes : forall u a isroot tn s x y l, NoDup (ids_t s) ->
   In (x, y, l) (dot_edges u a s) ->
@@ -193,6 +199,27 @@ Print Assumptions C17_mermaid_line_text.
 Theorem C17_mermaid_every_edge_line_renders : forall u a s e, In e (mer_edges u a s) -> mer_edge_text e <> None.
 Proof. exact mer_edge_text_defined. Qed.
 Print Assumptions C17_mermaid_every_edge_line_renders.
+
+(* the whole chart (header for the options, node lines, edge lines, closing
+   fence).  Default mappers: the export never raises and its lines are the
+   renderings of the node table and of the edge list above *)
+Theorem C17_mermaid_chart_default : forall o s, mo_node_templ o = None -> mo_edge_templ o = None ->
+  exists N E,
+    mer_chart o s = Some (mer_head o s ++ N ++ [[]; L_edges] ++ E ++ mer_tail o) /\
+    map Some N = map mer_node_text (mer_nodes (mo_unique o) (mo_add_root o) s) /\
+    map Some E = map mer_edge_text (mer_edges (mo_unique o) (mo_add_root o) s).
+Proof. exact mer_chart_default. Qed.
+Print Assumptions C17_mermaid_chart_default.
+
+(* any string templates: if the export does not raise, there is one node line
+   per distinct key and one edge line per exported edge *)
+Theorem C17_mermaid_chart_shape : forall o s ls, mer_chart o s = Some ls ->
+  exists N E,
+    ls = mer_head o s ++ N ++ [[]; L_edges] ++ E ++ mer_tail o /\
+    length N = length (first_occ (map (key (mo_unique o)) (export (mo_add_root o) s))) /\
+    length E = length (dot_edges (mo_unique o) (mo_add_root o) s).
+Proof. exact mer_chart_shape. Qed.
+Print Assumptions C17_mermaid_chart_shape.
 
 (* ======================================================================= RDF *)
 (* a triple SET: the has_child triples are exactly the image of the tree edges
